@@ -515,6 +515,8 @@ impl<'tcx> Cx<'tcx> {
                             ci.push(("callee_trait", esc(&self.path(tr))));
                         }
                         ci.push(("callee_name", esc(tcx.item_name(*cdid).as_str())));
+                        let is_unsafe = tcx.fn_sig(*cdid).skip_binder().safety().is_unsafe();
+                        ci.push(("callee_unsafe", is_unsafe.to_string()));
                         // closure / fn-item type arguments the callee is allowed to *call* (bounded by an Fn* trait)
                         let mut callable = vec![];
                         let preds = tcx.predicates_of(*cdid).instantiate(tcx, cargs);
